@@ -26,8 +26,11 @@ import (
 // of the space stays checked; its pinned reproduction then prints KNOWN-FINDING instead of
 // failing.
 const (
-	c32FDropIdxCol = "C32-patch-drop-column-before-index" // DROP COLUMN is emitted before DROP INDEX of that column's index: the patch fails with error 1091
-	c32FPKIndex    = "C32-patch-create-omits-pk-index"    // CREATE TABLE of a patch omits a secondary index whose columns are exactly the primary key
+	c32FDropIdxCol    = "C32-patch-drop-column-before-index" // DROP COLUMN is emitted before DROP INDEX of that column's index: the patch fails with error 1091
+	c32FPKIndex       = "C32-patch-create-omits-pk-index"    // CREATE TABLE of a patch omits a secondary index whose columns are exactly the primary key
+	c32FRenamedNull   = "C32-patch-renamed-column-set-null"  // a row whose value in a renamed column becomes NULL gets no UPDATE (from_ values are matched to the target schema by column name)
+	c32FRenameDropIdx = "C32-patch-rename-table-drop-index"  // after RENAME TABLE the DROP INDEX statements still name the old table: error 1146
+	c32FColOrder      = "C32-patch-column-position"          // ADD COLUMN is emitted without FIRST/AFTER: the patched table has another column order than `to`
 )
 
 // c32Excluded: the shape is switched off because the finding is listed open (or named in
@@ -53,15 +56,66 @@ func c32ShapeDropIdxCol(from, to *hTable) bool {
 		if _, still := to.Idx[in]; still {
 			continue
 		}
-		uid := from.Cols[from.colIndex(col)].UID
+		fcol := from.Cols[from.colIndex(col)]
 		gone := true
 		for _, tc := range to.Cols {
-			if tc.UID == uid || tc.Name == col {
+			if tc.UID == fcol.UID || (tc.Name == col && tc.Type == fcol.Type) {
 				gone = false
 			}
 		}
 		if gone {
 			return true
+		}
+	}
+	return false
+}
+
+// c32ShapeColOrder: the column order of `to` is not "the surviving columns of `from` in their
+// order, then the new columns".
+func c32ShapeColOrder(from, to *hTable) bool {
+	if from == nil || to == nil {
+		return false
+	}
+	match := func(a, b hCol) bool { return a.UID == b.UID || (a.Name == b.Name && a.Type == b.Type) }
+	var want []string
+	for _, fc := range from.Cols {
+		for _, tc := range to.Cols {
+			if match(fc, tc) {
+				want = append(want, tc.Name)
+				break
+			}
+		}
+	}
+	for _, tc := range to.Cols {
+		isNew := true
+		for _, fc := range from.Cols {
+			if match(fc, tc) {
+				isNew = false
+			}
+		}
+		if isNew {
+			want = append(want, tc.Name)
+		}
+	}
+	return !vsql.EqualStrings(want, to.colNames())
+}
+
+// c32ShapeRenamedNull: a column was renamed between the commits and some row's value in it
+// goes from non-NULL to NULL.
+func c32ShapeRenamedNull(from, to *hTable) bool {
+	if from == nil || to == nil {
+		return false
+	}
+	for i, fc := range from.Cols {
+		for j, tc := range to.Cols {
+			if fc.UID != tc.UID || fc.Name == tc.Name {
+				continue
+			}
+			for k, fr := range from.Rows {
+				if tr, ok := to.Rows[k]; ok && fr[i] != vsql.Null && tr[j] == vsql.Null {
+					return true
+				}
+			}
 		}
 	}
 	return false
@@ -95,6 +149,7 @@ type c32Stats struct {
 	added, removed, modified        int
 	schemaPairs, escaped, patchStmt int
 	narrowSkipped, excluded         int
+	renamePairs                     int
 }
 
 type c32Checker struct {
@@ -165,18 +220,30 @@ type c32Expected struct {
 
 // rowDiff compares the rows of `SELECT * FROM dolt_diff(from,to,name)` (or of dolt_diff_<t>
 // restricted to the pair) with the model. from / to may be nil (table absent on that side).
-func (c *c32Checker) rowDiff(what, q string, rows *vsql.Rows, from, to *hTable, fromHash, toHash string) c32Expected {
+func (c *c32Checker) rowDiff(what, q string, rows *vsql.Rows, from, to *hTable, fromHash, toHash string) (exp c32Expected, problem string) {
+	type bail struct{ msg string }
+	defer func() {
+		if r := recover(); r != nil {
+			b, ok := r.(bail)
+			if !ok {
+				panic(r)
+			}
+			problem = b.msg
+		}
+	}()
+	fail := func(format string, a ...any) { panic(bail{fmt.Sprintf(format, a...)}) }
+
 	col := map[string]int{}
 	for i, n := range rows.Cols {
 		if _, dup := col[n]; dup {
-			c.fail("C32 %s: duplicate result column %q: %s", what, n, q)
+			fail("C32 %s: duplicate result column %q: %s", what, n, q)
 		}
 		col[n] = i
 	}
 	idx := func(n string) int {
 		i, ok := col[n]
 		if !ok {
-			c.fail("C32 %s: result has no column %q (columns %q): %s", what, n, rows.Cols, q)
+			fail("C32 %s: result has no column %q (columns %q): %s", what, n, rows.Cols, q)
 		}
 		return i
 	}
@@ -211,7 +278,7 @@ func (c *c32Checker) rowDiff(what, q string, rows *vsql.Rows, from, to *hTable, 
 	seen := map[string]bool{}
 	for _, r := range rows.Data {
 		if r[fci] != fromHash || r[tci] != toHash {
-			c.fail("C32 %s: row with from_commit=%s to_commit=%s, asked for %s..%s: %s", what, r[fci], r[tci], fromHash, toHash, q)
+			fail("C32 %s: row with from_commit=%s to_commit=%s, asked for %s..%s: %s", what, r[fci], r[tci], fromHash, toHash, q)
 		}
 		var fr, tr []string
 		if from != nil {
@@ -224,69 +291,68 @@ func (c *c32Checker) rowDiff(what, q string, rows *vsql.Rows, from, to *hTable, 
 		switch r[dti] {
 		case "added":
 			if to == nil {
-				c.fail("C32 %s: 'added' row but the table is absent at `to`: %s", what, q)
+				fail("C32 %s: 'added' row but the table is absent at `to`: %s", what, q)
 			}
 			key = to.key(tr)
 			if from != nil {
 				if _, ok := from.Rows[key]; ok {
-					c.fail("C32 %s: key (%s) reported 'added' but the row exists at `from`: %s", what, hShowRows([]string{key}), q)
+					fail("C32 %s: key (%s) reported 'added' but the row exists at `from`: %s", what, hShowRows([]string{key}), q)
 				}
 				if !allNull(fr) {
-					c.fail("C32 %s: 'added' row (%s) with non-NULL from_ values %q: %s", what, hShowRows([]string{key}), fr, q)
+					fail("C32 %s: 'added' row (%s) with non-NULL from_ values %q: %s", what, hShowRows([]string{key}), fr, q)
 				}
 			}
 			want, ok := to.Rows[key]
 			if !ok || strings.Join(want, "\x1f") != strings.Join(tr, "\x1f") {
-				c.fail("C32 %s: 'added' row to_ values (%s); model row at `to`: (%s) present=%v: %s", what, hShowRows([]string{strings.Join(tr, "\x1f")}), hShowRows([]string{strings.Join(want, "\x1f")}), ok, q)
+				fail("C32 %s: 'added' row to_ values (%s); model row at `to`: (%s) present=%v: %s", what, hShowRows([]string{strings.Join(tr, "\x1f")}), hShowRows([]string{strings.Join(want, "\x1f")}), ok, q)
 			}
 		case "removed":
 			if from == nil {
-				c.fail("C32 %s: 'removed' row but the table is absent at `from`: %s", what, q)
+				fail("C32 %s: 'removed' row but the table is absent at `from`: %s", what, q)
 			}
 			key = from.key(fr)
 			if to != nil {
 				if _, ok := to.Rows[key]; ok {
-					c.fail("C32 %s: key (%s) reported 'removed' but the row exists at `to`: %s", what, hShowRows([]string{key}), q)
+					fail("C32 %s: key (%s) reported 'removed' but the row exists at `to`: %s", what, hShowRows([]string{key}), q)
 				}
 				if !allNull(tr) {
-					c.fail("C32 %s: 'removed' row (%s) with non-NULL to_ values %q: %s", what, hShowRows([]string{key}), tr, q)
+					fail("C32 %s: 'removed' row (%s) with non-NULL to_ values %q: %s", what, hShowRows([]string{key}), tr, q)
 				}
 			}
 			want, ok := from.Rows[key]
 			if !ok || strings.Join(want, "\x1f") != strings.Join(fr, "\x1f") {
-				c.fail("C32 %s: 'removed' row from_ values (%s); model row at `from`: (%s) present=%v: %s", what, hShowRows([]string{strings.Join(fr, "\x1f")}), hShowRows([]string{strings.Join(want, "\x1f")}), ok, q)
+				fail("C32 %s: 'removed' row from_ values (%s); model row at `from`: (%s) present=%v: %s", what, hShowRows([]string{strings.Join(fr, "\x1f")}), hShowRows([]string{strings.Join(want, "\x1f")}), ok, q)
 			}
 		case "modified":
 			if from == nil || to == nil {
-				c.fail("C32 %s: 'modified' row but the table is absent on one side: %s", what, q)
+				fail("C32 %s: 'modified' row but the table is absent on one side: %s", what, q)
 			}
 			key = to.key(tr)
 			if fk := from.key(fr); fk != key {
-				c.fail("C32 %s: 'modified' row pairs different keys: from (%s) to (%s): %s", what, hShowRows([]string{fk}), hShowRows([]string{key}), q)
+				fail("C32 %s: 'modified' row pairs different keys: from (%s) to (%s): %s", what, hShowRows([]string{fk}), hShowRows([]string{key}), q)
 			}
 			wf, okf := from.Rows[key]
 			wt, okt := to.Rows[key]
 			if !okf || !okt {
-				c.fail("C32 %s: key (%s) reported 'modified'; in model: at from=%v at to=%v: %s", what, hShowRows([]string{key}), okf, okt, q)
+				fail("C32 %s: key (%s) reported 'modified'; in model: at from=%v at to=%v: %s", what, hShowRows([]string{key}), okf, okt, q)
 			}
 			if strings.Join(wf, "\x1f") != strings.Join(fr, "\x1f") || strings.Join(wt, "\x1f") != strings.Join(tr, "\x1f") {
-				c.fail("C32 %s: 'modified' row (%s): from_ (%s) to_ (%s); model from (%s) to (%s): %s", what, hShowRows([]string{key}),
+				fail("C32 %s: 'modified' row (%s): from_ (%s) to_ (%s); model from (%s) to (%s): %s", what, hShowRows([]string{key}),
 					hShowRows([]string{strings.Join(fr, "\x1f")}), hShowRows([]string{strings.Join(tr, "\x1f")}),
 					hShowRows([]string{strings.Join(wf, "\x1f")}), hShowRows([]string{strings.Join(wt, "\x1f")}), q)
 			}
 			if same && strings.Join(wf, "\x1f") == strings.Join(wt, "\x1f") {
-				c.fail("C32 %s: key (%s) reported 'modified' but the row is identical in both commits (same schema): %s", what, hShowRows([]string{key}), q)
+				fail("C32 %s: key (%s) reported 'modified' but the row is identical in both commits (same schema): %s", what, hShowRows([]string{key}), q)
 			}
 		default:
-			c.fail("C32 %s: unknown diff_type %q: %s", what, r[dti], q)
+			fail("C32 %s: unknown diff_type %q: %s", what, r[dti], q)
 		}
 		if seen[r[dti][:1]+key] || seen["a"+key] || seen["r"+key] || seen["m"+key] {
-			c.fail("C32 %s: key (%s) reported more than once: %s\n%v", what, hShowRows([]string{key}), q, rows)
+			fail("C32 %s: key (%s) reported more than once: %s\n%v", what, hShowRows([]string{key}), q, rows)
 		}
 		seen[r[dti][:1]+key] = true
 	}
 	// completeness
-	var exp c32Expected
 	if to != nil {
 		for _, k := range to.keys() {
 			var fr []string
@@ -296,14 +362,14 @@ func (c *c32Checker) rowDiff(what, q string, rows *vsql.Rows, from, to *hTable, 
 			if fr == nil {
 				exp.added++
 				if !seen["a"+k] {
-					c.fail("C32 %s: row (%s) exists only at `to` but is not reported 'added': %s\n%v", what, hShowRows([]string{strings.Join(to.Rows[k], "\x1f")}), q, rows)
+					fail("C32 %s: row (%s) exists only at `to` but is not reported 'added': %s\n%v", what, hShowRows([]string{strings.Join(to.Rows[k], "\x1f")}), q, rows)
 				}
 				continue
 			}
 			if c32RowDiffers(from, to, fr, to.Rows[k]) {
 				exp.mustMod++
 				if !seen["m"+k] {
-					c.fail("C32 %s: row (%s) -> (%s) differs between the commits but is not reported 'modified' (from schema %s; to schema %s): %s\n%v", what,
+					fail("C32 %s: row (%s) -> (%s) differs between the commits but is not reported 'modified' (from schema %s; to schema %s): %s\n%v", what,
 						hShowRows([]string{strings.Join(fr, "\x1f")}), hShowRows([]string{strings.Join(to.Rows[k], "\x1f")}), from.schemaString(), to.schemaString(), q, rows)
 				}
 			} else if seen["m"+k] {
@@ -320,11 +386,11 @@ func (c *c32Checker) rowDiff(what, q string, rows *vsql.Rows, from, to *hTable, 
 			}
 			exp.removed++
 			if !seen["r"+k] {
-				c.fail("C32 %s: row (%s) exists only at `from` but is not reported 'removed': %s\n%v", what, hShowRows([]string{strings.Join(from.Rows[k], "\x1f")}), q, rows)
+				fail("C32 %s: row (%s) exists only at `from` but is not reported 'removed': %s\n%v", what, hShowRows([]string{strings.Join(from.Rows[k], "\x1f")}), q, rows)
 			}
 		}
 	}
-	return exp
+	return exp, ""
 }
 
 // pair checks one ordered pair of commits.
@@ -333,6 +399,7 @@ func (c *c32Checker) pair(fi, ti int, opts c32Opts) {
 	fc, tc := h.Commits[fi], h.Commits[ti]
 	c.st.pairs++
 	exp := map[string]c32Expected{}
+	renamed := map[string]bool{}
 	schemaChange := false
 	for _, name := range h.cfg.TablePool {
 		from, to := fc.State[name], tc.State[name]
@@ -351,7 +418,32 @@ func (c *c32Checker) pair(fi, ti int, opts c32Opts) {
 		if err != nil {
 			c.fail("C32 dolt_diff: %s failed: %v", q, err)
 		}
-		e := c.rowDiff("dolt_diff()", q, rows, from, to, fc.Hash, tc.Hash)
+		e, problem := c.rowDiff("dolt_diff()", q, rows, from, to, fc.Hash, tc.Hash)
+		if problem != "" && (from == nil || to == nil) {
+			// the table may have been renamed between the commits: dolt_diff then pairs the old and
+			// the new name. Accept the diff against any table that exists only on the other side.
+			for _, other := range h.cfg.TablePool {
+				if other == name || (fc.State[other] != nil && tc.State[other] != nil) {
+					continue
+				}
+				var e2 c32Expected
+				p2 := "x"
+				if from == nil && fc.State[other] != nil && c32KeyCols(fc.State[other]) == c32KeyCols(to) {
+					e2, p2 = c.rowDiff("dolt_diff()", q, rows, fc.State[other], to, fc.Hash, tc.Hash)
+				} else if to == nil && tc.State[other] != nil && c32KeyCols(tc.State[other]) == c32KeyCols(from) {
+					e2, p2 = c.rowDiff("dolt_diff()", q, rows, from, tc.State[other], fc.Hash, tc.Hash)
+				}
+				if p2 == "" {
+					e, problem = e2, ""
+					renamed[name] = true
+					c.st.renamePairs++
+					break
+				}
+			}
+		}
+		if problem != "" {
+			c.fail("%s", problem)
+		}
 		exp[name] = e
 		c.st.added += e.added
 		c.st.removed += e.removed
@@ -372,7 +464,7 @@ func (c *c32Checker) pair(fi, ti int, opts c32Opts) {
 	if schemaChange {
 		c.st.schemaPairs++
 	}
-	c.diffStat(fi, ti, exp)
+	c.diffStat(fi, ti, exp, renamed)
 	c.diffSummary(fi, ti)
 	if opts.patch {
 		c.patch(fi, ti)
@@ -380,7 +472,7 @@ func (c *c32Checker) pair(fi, ti int, opts c32Opts) {
 }
 
 // diffStat: dolt_diff_stat(from,to) row counts per table.
-func (c *c32Checker) diffStat(fi, ti int, exp map[string]c32Expected) {
+func (c *c32Checker) diffStat(fi, ti int, exp map[string]c32Expected, renamed map[string]bool) {
 	h := c.h
 	fc, tc := h.Commits[fi], h.Commits[ti]
 	q := fmt.Sprintf("SELECT table_name, rows_added, rows_deleted, rows_modified, rows_unmodified, old_row_count, new_row_count FROM dolt_diff_stat('%s','%s')", fc.Hash, tc.Hash)
@@ -411,6 +503,9 @@ func (c *c32Checker) diffStat(fi, ti int, exp map[string]c32Expected) {
 		if !ok {
 			continue
 		}
+		if (from == nil || to == nil) && c.renameCandidate(fi, ti, name) {
+			continue // possibly one half of a rename: reported under either name
+		}
 		dataChange := e.added+e.removed+e.mustMod > 0
 		if r == nil {
 			if dataChange {
@@ -436,6 +531,21 @@ func (c *c32Checker) diffStat(fi, ti int, exp map[string]c32Expected) {
 			c.fail("C32 dolt_diff_stat: lists table %s which exists at neither commit: %s", name, q)
 		}
 	}
+}
+
+// renameCandidate: name exists on one side only and some other name exists only on the other.
+func (c *c32Checker) renameCandidate(fi, ti int, name string) bool {
+	fs, ts := c.h.Commits[fi].State, c.h.Commits[ti].State
+	for _, other := range c.h.cfg.TablePool {
+		if other == name {
+			continue
+		}
+		if (fs[name] != nil && ts[name] == nil && fs[other] == nil && ts[other] != nil) ||
+			(fs[name] == nil && ts[name] != nil && fs[other] != nil && ts[other] == nil) {
+			return true
+		}
+	}
+	return false
 }
 
 func c32TablesEqual(a, b *hTable) bool {
@@ -574,7 +684,25 @@ func (c *c32Checker) patch(fi, ti int) {
 			c.st.narrowSkipped++
 			return // see the assumptions: schema statements come first, a narrowing MODIFY may not fit `from`'s rows
 		}
-		if (c32ShapeDropIdxCol(from, to) && c32Excluded(c32FDropIdxCol)) || (c32ShapePKIndex(from, to) && c32Excluded(c32FPKIndex)) {
+		if from != nil && to == nil && c32Excluded(c32FRenameDropIdx) {
+			// possibly renamed to a table that exists only at `to` and lacks one of its indexes
+			shape := false
+			for _, other := range h.cfg.TablePool {
+				if o := tc.State[other]; o != nil && fc.State[other] == nil {
+					for in := range from.Idx {
+						if _, ok := o.Idx[in]; !ok {
+							shape = true
+						}
+					}
+				}
+			}
+			if shape {
+				c.st.excluded++
+				return
+			}
+		}
+		if (c32ShapeDropIdxCol(from, to) && c32Excluded(c32FDropIdxCol)) || (c32ShapePKIndex(from, to) && c32Excluded(c32FPKIndex)) ||
+			(c32ShapeRenamedNull(from, to) && c32Excluded(c32FRenamedNull)) {
 			c.st.excluded++
 			return
 		}
@@ -649,6 +777,10 @@ func (c *c32Checker) patch(fi, ti int) {
 		if err1 != nil || err2 != nil {
 			c.fail("C32 dolt_patch: SHOW CREATE TABLE %s: %v / %v", name, err1, err2)
 		}
+		if c32ShapeColOrder(fc.State[name], want) && c32Excluded(c32FColOrder) {
+			c.st.excluded++
+			continue
+		}
 		if len(sc.Data) != 1 || len(sw.Data) != 1 || sc.Data[0][1] != sw.Data[0][1] {
 			c.fail("C32 dolt_patch: after applying %s (#%d -> #%d) SHOW CREATE TABLE %s differs\n got   %v\n at to %v\nstatements:\n%s", q, fi, ti, name, sc.Data, sw.Data, strings.Join(stmts, "\n"))
 		}
@@ -695,7 +827,9 @@ func (c *c32Checker) diffTable() {
 					sub.Data = append(sub.Data, r)
 				}
 			}
-			c.rowDiff("dolt_diff_"+name, q+" /* to_commit="+child.Hash+" */", sub, from, to, parent.Hash, child.Hash)
+			if _, problem := c.rowDiff("dolt_diff_"+name, q+" /* to_commit="+child.Hash+" */", sub, from, to, parent.Hash, child.Hash); problem != "" {
+				c.fail("%s", problem)
+			}
 			c.st.evals++
 		}
 	}
